@@ -11,8 +11,29 @@ Read with `ast`, from /repo's current source:
   attribute feeds which struct member (unboxing) and which struct member feeds which constructor
   argument (boxing).
 
-Anything whose shape is not one of the recognised ones is REFUSED (no definition is emitted, so
-`Props/C14.lean` does not build and the obligation stays undischarged); nothing is guessed.
+What is pinned is the SEMANTICS of those functions, not their spelling.  Each reader below is a small
+interpreter for straight-line code over a closed set of statement forms: a local bound once to a pure
+expression is resolved, keyword arguments are matched by name (positional ones through the signature of the
+callee, read from the source), `x is None` / `x is not None` and `a if c else b` / `if c: … else: …` are the
+same test, dict entries can be given by a literal, by `dict(k=v)`, by `d[k] = v` or by `d.update(k=v)`.
+Order is canonicalised exactly where it has no meaning:
+
+* the members `save_npz` puts into the dict it hands to `np.savez` form a MAPPING (the archive is read by
+  name): `npzCommon` and the member list of every branch of `npzWrite` are sorted by member name;
+  the branches of the type dispatch keep their order unless every pair of tests is mutually exclusive
+  (`type(m) is A` against `isinstance(m, B)` with A not a subclass of B, established from the class
+  statements), in which case they are sorted by class name — independent `if` statements are accepted as a
+  dispatch only in that case;
+* `cooUnbox` (struct member ↦ attribute) and `cooBoxKwargs` (keyword ↦ struct member) are mappings: sorted by
+  key; `cooSetStateReset` is a set of independent attribute stores: sorted.
+
+Order is KEPT where it has a meaning: the `try` blocks of `load_npz` and the subscripts inside each block
+(`npzRequire`: which exception a defective file raises depends on both), the state tuple and its unpacking
+(`cooGetState`, `cooSetState`), the struct layout (`cooStruct`: `lower_constant_COO` packs positionally), the
+positional arguments of the boxed call (`cooBoxArgs`).
+
+Anything outside the recognised forms is REFUSED (no definition is emitted, so `Props/C14.lean` does not
+build and the obligation stays undischarged); nothing is guessed.
 """
 from __future__ import annotations
 
@@ -21,14 +42,17 @@ from pathlib import Path
 
 IO = "sparse/numba_backend/_io.py"
 CORE = "sparse/numba_backend/_coo/core.py"
+GCXS_SRC = "sparse/numba_backend/_compressed/compressed.py"
 NUMBA = "sparse/numba_backend/_coo/numba_extension.py"
 OUT = "Npz.lean"
 NAMES = ["npzCommon", "npzWrite", "npzNoneAxesAsEmpty", "npzRequire", "npzEmptyAxesAsNone", "npzRejectLeadingData", "npzVerifyCrc",
          "cooGetState", "cooSetState", "cooSetStateReset",
          "cooStruct", "cooShapeDtype", "cooUnbox", "cooBoxArgs", "cooBoxKwargs"]
 KNOWN_CLASSES = {"COO", "GCXS"}
+CLASS_SRC = {"COO": CORE, "GCXS": GCXS_SRC}
 ATTRS = {"COO": {"data", "shape", "fill_value", "coords"},
          "GCXS": {"data", "shape", "fill_value", "indices", "indptr", "compressed_axes"}}
+FOREIGN = {"numpy", "abc", "collections", "numbers", "typing"}  # libraries that cannot derive a class from this package's
 
 
 class Refuse(Exception):
@@ -50,163 +74,524 @@ def func(tree, name):
     raise Refuse(f"function {name} not found")
 
 
-def method(tree, cls, name):
+def klass(tree, cls):
     for n in tree.body:
         if isinstance(n, ast.ClassDef) and n.name == cls:
-            for m in n.body:
-                if isinstance(m, ast.FunctionDef) and m.name == name:
-                    return m
+            return n
+    return None
+
+
+def method(tree, cls, name):
+    c = klass(tree, cls)
+    if c is not None:
+        for m in c.body:
+            if isinstance(m, ast.FunctionDef) and m.name == name:
+                return m
     raise Refuse(f"method {cls}.{name} not found")
+
+
+def is_none(n):
+    return isinstance(n, ast.Constant) and n.value is None
+
+
+def single_target(st):
+    return st.targets[0] if isinstance(st, ast.Assign) and len(st.targets) == 1 else None
+
+
+def plain_params(f, what):
+    a = f.args
+    if a.vararg or a.kwarg or a.kwonlyargs or a.posonlyargs:
+        raise Refuse(f"{what}: signature with */** parameters")
+    return [x.arg for x in a.args]
+
+
+# ---------------------------------------------------------------------------------------- class hierarchy
+
+def not_subclass(repo: Path, sub: str, sup: str) -> bool:
+    """True iff the class statements establish that `sub` does not derive from `sup`; False = not established"""
+    seen = set()
+
+    def walk(path: Path, name: str) -> bool:
+        if (path, name) in seen:
+            return True
+        seen.add((path, name))
+        try:
+            tree = ast.parse(path.read_text())
+        except (OSError, SyntaxError):
+            return False
+        c = klass(tree, name)
+        if c is None or c.keywords and any(k.arg != "metaclass" for k in c.keywords):
+            return False
+        imported, modules = {}, {}
+        for n in tree.body:
+            if isinstance(n, ast.ImportFrom):
+                for al in n.names:
+                    imported[al.asname or al.name] = (n.level, n.module or "", al.name)
+            elif isinstance(n, ast.Import):
+                for al in n.names:
+                    modules[al.asname or al.name.split(".")[0]] = al.name.split(".")[0]
+        for b in c.bases:
+            root = b
+            while isinstance(root, ast.Attribute):
+                root = root.value
+            if not isinstance(root, ast.Name):
+                return False
+            if isinstance(b, ast.Attribute):
+                if modules.get(root.id) in FOREIGN:
+                    continue
+                return False
+            if b.id == sup:
+                return False
+            if klass(tree, b.id) is not None:
+                if not walk(path, b.id):
+                    return False
+                continue
+            if b.id not in imported:
+                return False
+            level, mod, orig = imported[b.id]
+            if level == 0:
+                if mod.split(".")[0] in FOREIGN:
+                    continue
+                return False
+            if orig == sup:
+                return False
+            base = path.parent
+            for _ in range(level - 1):
+                base = base.parent
+            cand = base.joinpath(*mod.split(".")) if mod else base
+            target = cand.with_suffix(".py") if cand.with_suffix(".py").exists() else cand / "__init__.py"
+            if not walk(target, orig):
+                return False
+        return True
+
+    return sub != sup and sub in CLASS_SRC and walk(repo / CLASS_SRC[sub], sub)
 
 
 # ---------------------------------------------------------------------------------------- save_npz
 
-def matrix_attr(node, mat, locals_):
-    """`matrix.attr` or a local bound to it -> attr name, else None"""
-    if isinstance(node, ast.Attribute) and isinstance(node.value, ast.Name) and node.value.id == mat:
-        return node.attr
-    if isinstance(node, ast.Name) and node.id in locals_:
-        return locals_[node.id]
-    return None
-
-
-def member_value(node, mat, locals_):
-    """-> (attr, encoding) with encoding 'asis' | 'noneAsEmpty'"""
-    a = matrix_attr(node, mat, locals_)
-    if a is not None:
-        return a, "asis"
-    inner = node
-    if (isinstance(node, ast.Call) and u(node.func) in ("np.asarray", "np.array", "np.asanyarray") and len(node.args) == 1
-            and all(k.arg == "dtype" for k in node.keywords)):
-        inner = node.args[0]
-    if isinstance(inner, ast.IfExp):
-        t = inner.test
-        if (isinstance(t, ast.Compare) and len(t.ops) == 1 and isinstance(t.comparators[0], ast.Constant) and t.comparators[0].value is None):
-            a = matrix_attr(t.left, mat, locals_)
-            empty, other = (inner.body, inner.orelse) if isinstance(t.ops[0], ast.Is) else (inner.orelse, inner.body) if isinstance(t.ops[0], ast.IsNot) else (None, None)
-            if a is not None and empty is not None and u(empty) in ("()", "[]") and matrix_attr(other, mat, locals_) == a:
-                return a, "noneAsEmpty"
-    raise Refuse(f"save_npz: member value `{u(node)}` is not `matrix.<attr>` nor the recognised None-as-empty encoding")
-
-
 def type_test(test, mat):
     """-> (class name, exact?)"""
-    if (isinstance(test, ast.Compare) and len(test.ops) == 1 and isinstance(test.ops[0], ast.Is)
-            and u(test.left) == f"type({mat})" and isinstance(test.comparators[0], ast.Name)):
-        return test.comparators[0].id, True
+    if isinstance(test, ast.Compare) and len(test.ops) == 1 and isinstance(test.ops[0], ast.Is):
+        a, b = test.left, test.comparators[0]
+        for x, y in ((a, b), (b, a)):
+            if u(x) == f"type({mat})" and isinstance(y, ast.Name):
+                return y.id, True
     if (isinstance(test, ast.Call) and u(test.func) == "isinstance" and len(test.args) == 2 and not test.keywords
-            and u(test.args[0]) == mat and isinstance(test.args[1], ast.Name)):
-        return test.args[1].id, False
+            and u(test.args[0]) == mat):
+        c = test.args[1]
+        if isinstance(c, ast.Tuple) and len(c.elts) == 1:
+            c = c.elts[0]
+        if isinstance(c, ast.Name):
+            return c.id, False
     raise Refuse(f"save_npz: type test `{u(test)}` not understood")
 
 
-def read_save(tree):
-    f = func(tree, "save_npz")
-    args = [a.arg for a in f.args.args]
-    if len(args) != 3 or f.args.vararg or f.args.kwarg or f.args.kwonlyargs:
-        raise Refuse("save_npz: signature changed")
-    fname, mat, comp = args
-    body = nodoc(f.body)
-    if len(body) != 3:
-        raise Refuse(f"save_npz: expected `nodes = {{...}}`, the type dispatch and the writer call; found {len(body)} statements")
-    s0, s1, s2 = body
-    if not (isinstance(s0, ast.Assign) and len(s0.targets) == 1 and isinstance(s0.targets[0], ast.Name) and isinstance(s0.value, ast.Dict)):
-        raise Refuse("save_npz: first statement is not `nodes = {...}`")
-    nodes = s0.targets[0].id
-    common = []
-    for k, v in zip(s0.value.keys, s0.value.values):
-        if not (isinstance(k, ast.Constant) and isinstance(k.value, str)):
-            raise Refuse("save_npz: non-literal member name")
-        a, enc = member_value(v, mat, {})
-        if enc != "asis":
-            raise Refuse("save_npz: encoded common member")
-        common.append((k.value, a))
-    branches, none_as_empty = [], None
-    node = s1
-    while True:
-        if not isinstance(node, ast.If):
-            raise Refuse("save_npz: second statement is not the type dispatch")
-        cls, exact = type_test(node.test, mat)
-        if cls not in KNOWN_CLASSES:
-            raise Refuse(f"save_npz: dispatch on unknown class {cls}")
-        locals_, members = {}, []
-        for st in node.body:
-            if not (isinstance(st, ast.Assign) and len(st.targets) == 1):
-                raise Refuse(f"save_npz: statement `{u(st)[:50]}` in the {cls} branch")
-            tgt = st.targets[0]
-            if isinstance(tgt, ast.Name):
-                a = matrix_attr(st.value, mat, locals_)
-                if a is None:
-                    raise Refuse(f"save_npz: local `{u(st)[:50]}` is not an attribute of the matrix")
-                locals_[tgt.id] = a
-                continue
-            if not (isinstance(tgt, ast.Subscript) and u(tgt.value) == nodes and isinstance(tgt.slice, ast.Constant) and isinstance(tgt.slice.value, str)):
+def is_type_test(test, mat):
+    try:
+        type_test(test, mat)
+        return True
+    except Refuse:
+        return False
+
+
+class Save:
+    """straight-line interpretation of save_npz: locals bound to `matrix.<attr>` (possibly with `None` replaced by an
+    empty sequence), ONE dict that collects the members, a dispatch on the type of the matrix, the writer call"""
+
+    def __init__(self, f, repo):
+        self.repo = repo
+        args = plain_params(f, "save_npz")
+        if len(args) != 3:
+            raise Refuse("save_npz: signature changed")
+        self.fname, self.mat, self.comp = args
+        self.nodes = None            # name of the dict
+        self.common = []             # [(member, attr, enc)]
+        self.branches = []           # [(cls, exact, [(member, attr, enc)])]  in source order
+        self.chained = []            # for every branch: does it hang off the previous one by `elif`?
+        self.writer = None           # local bound to `np.savez_compressed if compressed else np.savez`
+        self.done = False
+        env = {}
+        for st in nodoc(f.body):
+            if self.done:
+                raise Refuse(f"save_npz: statement `{u(st)[:50]}` after the writer call")
+            self.top(st, env)
+        if not self.done:
+            raise Refuse("save_npz: no writer call `np.savez_compressed(filename, **nodes)` / `np.savez(filename, **nodes)`")
+
+    # -- values
+    def attr_of(self, node, env):
+        """`matrix.attr` or a local bound to one -> (attr, enc) else None"""
+        if isinstance(node, ast.Attribute) and isinstance(node.value, ast.Name) and node.value.id == self.mat:
+            return node.attr, "asis"
+        if isinstance(node, ast.Name) and node.id in env:
+            return env[node.id]
+        return None
+
+    def member_value(self, node, env):
+        """-> (attr, encoding) with encoding 'asis' | 'noneAsEmpty'"""
+        a = self.attr_of(node, env)
+        if a is not None:
+            return a
+        inner = node
+        if (isinstance(node, ast.Call) and u(node.func) in ("np.asarray", "np.array", "np.asanyarray") and len(node.args) == 1
+                and all(k.arg == "dtype" for k in node.keywords)):
+            inner = node.args[0]
+        if isinstance(inner, ast.IfExp):
+            t = inner.test
+            if isinstance(t, ast.Compare) and len(t.ops) == 1 and is_none(t.comparators[0]):
+                a = self.attr_of(t.left, env)
+                empty, other = ((inner.body, inner.orelse) if isinstance(t.ops[0], ast.Is) else
+                                (inner.orelse, inner.body) if isinstance(t.ops[0], ast.IsNot) else (None, None))
+                if a is not None and a[1] == "asis" and empty is not None and u(empty) in ("()", "[]") and self.attr_of(other, env) == a:
+                    return a[0], "noneAsEmpty"
+        raise Refuse(f"save_npz: member value `{u(node)}` is not `matrix.<attr>` nor the recognised None-as-empty encoding")
+
+    def entries(self, node, env):
+        """a dict display / `dict(k=v, …)` -> [(member, attr, enc)] else None"""
+        if isinstance(node, ast.Dict):
+            out = []
+            for k, v in zip(node.keys, node.values):
+                if not (isinstance(k, ast.Constant) and isinstance(k.value, str)):
+                    raise Refuse("save_npz: non-literal member name")
+                out.append((k.value, *self.member_value(v, env)))
+            return out
+        if isinstance(node, ast.Call) and u(node.func) == "dict" and not node.args:
+            if any(k.arg is None for k in node.keywords):
+                raise Refuse("save_npz: ** in dict(...)")
+            return [(k.arg, *self.member_value(k.value, env)) for k in node.keywords]
+        return None
+
+    # -- statements that may occur at the top level and inside a branch
+    def simple(self, st, env, sink, where):
+        tgt = single_target(st)
+        if tgt is not None and isinstance(tgt, ast.Name) and tgt.id not in (self.nodes, self.mat, self.fname, self.comp):
+            if tgt.id in env:
+                raise Refuse(f"save_npz: local `{tgt.id}` bound twice")
+            a = self.attr_of(st.value, env)
+            if a is None:
+                a = self.member_value(st.value, env)
+            env[tgt.id] = a
+            return True
+        # `if L is None: L = ()`  on a local bound to an attribute
+        if (isinstance(st, ast.If) and not st.orelse and len(st.body) == 1 and isinstance(st.test, ast.Compare) and len(st.test.ops) == 1
+                and isinstance(st.test.ops[0], ast.Is) and is_none(st.test.comparators[0]) and isinstance(st.test.left, ast.Name)
+                and st.test.left.id in env):
+            t = single_target(st.body[0])
+            if isinstance(t, ast.Name) and t.id == st.test.left.id and u(st.body[0].value) in ("()", "[]") and env[t.id][1] == "asis":
+                env[t.id] = (env[t.id][0], "noneAsEmpty")
+                return True
+            raise Refuse(f"save_npz: statement `{u(st)[:50]}` {where}")
+        if self.nodes is None:
+            return False
+        # nodes[k] = v
+        if (tgt is not None and isinstance(tgt, ast.Subscript) and u(tgt.value) == self.nodes):
+            if not (isinstance(tgt.slice, ast.Constant) and isinstance(tgt.slice.value, str)):
                 raise Refuse(f"save_npz: assignment target `{u(tgt)}`")
-            a, enc = member_value(st.value, mat, locals_)
-            if enc == "noneAsEmpty":
-                if a != "compressed_axes":
-                    raise Refuse("save_npz: None-as-empty encoding on a member other than compressed_axes")
-                none_as_empty = True
-            elif a == "compressed_axes":
-                none_as_empty = False
-            if a not in ATTRS[cls]:
-                raise Refuse(f"save_npz: attribute {a} in the {cls} branch")
-            members.append((tgt.slice.value, a))
-        branches.append((cls, exact, members))
-        if not node.orelse:
-            break
-        if len(node.orelse) == 1 and isinstance(node.orelse[0], ast.If):
-            node = node.orelse[0]
-            continue
-        raise Refuse("save_npz: the type dispatch has a final else branch")
-    for (k, a) in common:
-        if not all(a in ATTRS[c] for c in KNOWN_CLASSES):
-            raise Refuse(f"save_npz: common attribute {a}")
-    # writer: if compressed: np.savez_compressed(filename, **nodes) else: np.savez(filename, **nodes)
-    ok = (isinstance(s2, ast.If) and u(s2.test) == comp and len(s2.body) == 1 and len(s2.orelse) == 1)
-    if ok:
-        calls = []
-        for st in (s2.body[0], s2.orelse[0]):
-            if not (isinstance(st, ast.Expr) and isinstance(st.value, ast.Call)):
-                ok = False
-                break
+            sink.append((tgt.slice.value, *self.member_value(st.value, env)))
+            return True
+        # nodes.update(k=v, …) / nodes.update({…})
+        if (isinstance(st, ast.Expr) and isinstance(st.value, ast.Call) and u(st.value.func) == f"{self.nodes}.update"):
             c = st.value
-            calls.append(u(c.func))
-            if not (len(c.args) == 1 and u(c.args[0]) == fname and len(c.keywords) == 1 and c.keywords[0].arg is None and u(c.keywords[0].value) == nodes):
-                ok = False
-        ok = ok and calls == ["np.savez_compressed", "np.savez"]
-    if not ok:
-        raise Refuse("save_npz: the writer call is not `np.savez_compressed(filename, **nodes)` / `np.savez(filename, **nodes)`")
-    names = [k for k, _ in common]
-    for _, _, ms in branches:
-        for k, _ in ms:
-            if k in names:
-                raise Refuse(f"save_npz: member {k} overwritten by a branch")
-    if none_as_empty is None:
-        raise Refuse("save_npz: compressed_axes is not written by any branch")
-    return common, branches, none_as_empty
+            if len(c.args) > 1 or any(k.arg is None for k in c.keywords):
+                raise Refuse(f"save_npz: `{u(st)[:50]}`")
+            if c.args:
+                e = self.entries(c.args[0], env)
+                if e is None:
+                    raise Refuse(f"save_npz: `{u(st)[:50]}`")
+                sink += e
+            sink += [(k.arg, *self.member_value(k.value, env)) for k in c.keywords]
+            return True
+        return False
+
+    def top(self, st, env):
+        tgt = single_target(st)
+        # the dict
+        if self.nodes is None and isinstance(tgt, ast.Name):
+            e = self.entries(st.value, env)
+            if e is not None:
+                self.nodes = tgt.id
+                self.common += e
+                return
+        # writer selected into a local
+        if (isinstance(tgt, ast.Name) and isinstance(st.value, ast.IfExp) and self.writer is None
+                and self.writers(st.value.test, u(st.value.body), u(st.value.orelse))):
+            self.writer = tgt.id
+            return
+        if self.simple(st, env, self.common, "at the top level of save_npz"):
+            return
+        if self.nodes is not None and isinstance(st, ast.If):
+            if is_type_test(st.test, self.mat):
+                self.dispatch(st, env)
+                return
+            # if compressed: np.savez_compressed(f, **nodes) else: np.savez(f, **nodes)
+            if len(st.body) == 1 and len(st.orelse) == 1:
+                a, b = self.write_call(st.body[0]), self.write_call(st.orelse[0])
+                if a and b and self.writers(st.test, a, b):
+                    self.done = True
+                    return
+            if any(isinstance(n, ast.Name) and n.id == self.comp for n in ast.walk(st.test)):
+                raise Refuse("save_npz: the writer call is not `np.savez_compressed(filename, **nodes)` / `np.savez(filename, **nodes)` selected by `compressed`")
+            raise Refuse(f"save_npz: statement `{u(st)[:60]}` is neither the type dispatch nor the writer call")
+        if self.nodes is not None and self.writer is not None and self.write_call(st) == self.writer:
+            self.done = True
+            return
+        raise Refuse(f"save_npz: statement `{u(st)[:60]}` not understood")
+
+    def writers(self, test, when_true, when_false):
+        """the truth value of `compressed` selects np.savez_compressed, its negation np.savez"""
+        if isinstance(test, ast.UnaryOp) and isinstance(test.op, ast.Not):
+            test, when_true, when_false = test.operand, when_false, when_true
+        return u(test) == self.comp and when_true == "np.savez_compressed" and when_false == "np.savez"
+
+    def write_call(self, st):
+        """`F(filename, **nodes)` -> text of F"""
+        if not (isinstance(st, ast.Expr) and isinstance(st.value, ast.Call)):
+            return None
+        c = st.value
+        if len(c.args) == 1 and u(c.args[0]) == self.fname and len(c.keywords) == 1 and c.keywords[0].arg is None and u(c.keywords[0].value) == self.nodes:
+            return u(c.func)
+        return None
+
+    def dispatch(self, node, env):
+        first = True
+        while True:
+            cls, exact = type_test(node.test, self.mat)
+            if cls not in KNOWN_CLASSES:
+                raise Refuse(f"save_npz: dispatch on unknown class {cls}")
+            members, local = [], dict(env)
+            for st in node.body:
+                if not self.simple(st, local, members, f"in the {cls} branch"):
+                    raise Refuse(f"save_npz: statement `{u(st)[:50]}` in the {cls} branch")
+            for (_, a, _) in members:
+                if a not in ATTRS[cls]:
+                    raise Refuse(f"save_npz: attribute {a} in the {cls} branch")
+            self.branches.append((cls, exact, members))
+            self.chained.append(not first)
+            first = False
+            if not node.orelse:
+                return
+            if len(node.orelse) == 1 and isinstance(node.orelse[0], ast.If) and is_type_test(node.orelse[0].test, self.mat):
+                node = node.orelse[0]
+                continue
+            raise Refuse("save_npz: the type dispatch has a final else branch")
+
+    def exclusive(self, b1, b2):
+        (c1, e1, _), (c2, e2, _) = b1, b2
+        if c1 == c2:
+            return False
+        if e1 and e2:
+            return True
+        if e1 != e2:
+            ex, inst = (c1, c2) if e1 else (c2, c1)
+            return not_subclass(self.repo, ex, inst)
+        return False
+
+    def result(self):
+        names = [k for k, _, _ in self.common]
+        if len(set(names)) != len(names):
+            raise Refuse("save_npz: a common member is written twice")
+        for (_, a, enc) in self.common:
+            if enc != "asis":
+                raise Refuse("save_npz: encoded common member")
+            if not all(a in ATTRS[c] for c in KNOWN_CLASSES):
+                raise Refuse(f"save_npz: common attribute {a}")
+        all_exclusive = all(self.exclusive(a, b) for i, a in enumerate(self.branches) for b in self.branches[i + 1:])
+        if not all_exclusive and not all(self.chained[1:]):
+            raise Refuse("save_npz: independent `if` statements on the type of the matrix whose tests are not known to be mutually exclusive")
+        none_as_empty = None
+        out = []
+        for cls, exact, ms in self.branches:
+            ks = [k for k, _, _ in ms]
+            if len(set(ks)) != len(ks) or set(ks) & set(names):
+                raise Refuse(f"save_npz: a member is overwritten in the {cls} branch")
+            for _, a, enc in ms:
+                if enc == "noneAsEmpty":
+                    if a != "compressed_axes":
+                        raise Refuse("save_npz: None-as-empty encoding on a member other than compressed_axes")
+                    none_as_empty = True
+                elif a == "compressed_axes":
+                    none_as_empty = False
+            out.append((cls, exact, sorted((k, a) for k, a, _ in ms)))
+        if none_as_empty is None:
+            raise Refuse("save_npz: compressed_axes is not written by any branch")
+        if all_exclusive:
+            out.sort(key=lambda b: b[0])
+        return sorted((k, a) for k, a, _ in self.common), out, none_as_empty
+
+
+def read_save(tree, repo):
+    return Save(func(tree, "save_npz"), repo).result()
 
 
 # ---------------------------------------------------------------------------------------- load_npz
 
-def fp_member(node, fp):
-    """`fp["k"]`, `tuple(fp["k"])`, `fp["k"][()]` -> (k, conversion)"""
-    conv = "asis"
-    if isinstance(node, ast.Call) and u(node.func) == "tuple" and len(node.args) == 1 and not node.keywords:
-        node, conv = node.args[0], "tuple"
-    elif isinstance(node, ast.Subscript) and u(node.slice) == "()":
-        node, conv = node.value, "item"
-    if (isinstance(node, ast.Subscript) and u(node.value) == fp and isinstance(node.slice, ast.Constant) and isinstance(node.slice.value, str)):
-        return node.slice.value, conv
-    raise Refuse(f"load_npz: `{u(node)}` is not a member subscript")
+CONV = {"shape": ["tuple"], "fill_value": ["item"]}
 
 
-CONV = {"shape": "tuple", "fill_value": "item"}
+class Val:
+    """a value inside a `try` block of load_npz"""
+
+    def __init__(self, kind, member=None, conv=(), decoded=False, elts=None):
+        self.kind, self.member, self.conv, self.decoded, self.elts = kind, member, list(conv), decoded, elts  # kind: member | triple | none
 
 
-def read_load(tree):
+def ctor_params(repo, cls):
+    try:
+        tree = ast.parse((repo / CLASS_SRC[cls]).read_text())
+        return plain_params(method(tree, cls, "__init__"), f"{cls}.__init__")[1:]
+    except (OSError, SyntaxError, Refuse, KeyError):
+        return None
+
+
+class Block:
+    """one `try` block: the order of the subscripts `fp[k]`, the constructor call and what it is given"""
+
+    def __init__(self, fp, repo):
+        self.fp, self.repo, self.env, self.order, self.ret = fp, repo, {}, [], None
+
+    def value(self, node):
+        """evaluate an expression; subscripts of fp are appended to self.order in evaluation order"""
+        if isinstance(node, ast.Name):
+            if node.id in self.env:
+                v = self.env[node.id]
+                return Val(v.kind, v.member, v.conv, v.decoded, v.elts)
+            raise Refuse(f"load_npz: name `{node.id}` inside a try block")
+        if is_none(node):
+            return Val("none")
+        if isinstance(node, ast.Call) and u(node.func) == "tuple" and len(node.args) == 1 and not node.keywords:
+            v = self.value(node.args[0])
+            if v.kind != "member":
+                raise Refuse(f"load_npz: `{u(node)}`")
+            v.conv.append("tuple")
+            return v
+        if isinstance(node, ast.Subscript) and u(node.slice) == "()":
+            v = self.value(node.value)
+            if v.kind != "member":
+                raise Refuse(f"load_npz: `{u(node)}`")
+            v.conv.append("item")
+            return v
+        if isinstance(node, ast.Subscript) and u(node.value) == self.fp:
+            if not (isinstance(node.slice, ast.Constant) and isinstance(node.slice.value, str)):
+                raise Refuse(f"load_npz: `{u(node)}` is not a member subscript")
+            k = node.slice.value
+            if k in self.order:
+                raise Refuse(f"load_npz: member {k} read twice")
+            self.order.append(k)
+            return Val("member", k)
+        if isinstance(node, ast.Tuple) and len(node.elts) == 3:
+            return Val("triple", elts=[self.value(e) for e in node.elts])
+        if isinstance(node, ast.IfExp):
+            e = self.empty_test(node.test)
+            if e is not None:
+                name, empty_when_true = e
+                a, b = (node.body, node.orelse) if empty_when_true else (node.orelse, node.body)
+                if is_none(a) and isinstance(b, ast.Name) and b.id == name:
+                    v = self.value(b)
+                    v.decoded = True
+                    return v
+        raise Refuse(f"load_npz: `{u(node)[:60]}` is not a member subscript")
+
+    def empty_test(self, t):
+        """`L.size == 0` / `0 == L.size` / `not L.size` -> (L, True); `L.size != 0` / `L.size` -> (L, False)"""
+        def size_of(n):
+            if (isinstance(n, ast.Attribute) and n.attr == "size" and isinstance(n.value, ast.Name) and n.value.id in self.env
+                    and self.env[n.value.id].kind == "member" and not self.env[n.value.id].conv):
+                return n.value.id
+            return None
+        if isinstance(t, ast.UnaryOp) and isinstance(t.op, ast.Not):
+            e = self.empty_test(t.operand)
+            return None if e is None else (e[0], not e[1])
+        if size_of(t):
+            return size_of(t), False
+        if isinstance(t, ast.Compare) and len(t.ops) == 1 and isinstance(t.ops[0], ast.Eq | ast.NotEq):
+            a, b = t.left, t.comparators[0]
+            for x, y in ((a, b), (b, a)):
+                if size_of(x) and u(y) == "0":
+                    return size_of(x), isinstance(t.ops[0], ast.Eq)
+        return None
+
+    def statement(self, st):
+        tgt = single_target(st)
+        if isinstance(tgt, ast.Name):
+            self.env[tgt.id] = self.value(st.value)
+            return
+        if isinstance(st, ast.If):
+            e = self.empty_test(st.test)
+            if e is not None:
+                name, empty_when_true = e
+                body, orelse = (st.body, st.orelse) if empty_when_true else (st.orelse, st.body)
+                if len(body) == 1 and len(orelse) <= 1:
+                    t1 = single_target(body[0])
+                    if isinstance(t1, ast.Name) and is_none(body[0].value):
+                        if not orelse and t1.id == name:
+                            self.env[name].decoded = True
+                            return
+                        if orelse:
+                            t2 = single_target(orelse[0])
+                            if isinstance(t2, ast.Name) and t2.id == t1.id and isinstance(orelse[0].value, ast.Name) and orelse[0].value.id == name:
+                                v = self.value(orelse[0].value)
+                                v.decoded = True
+                                self.env[t1.id] = v
+                                return
+        raise Refuse(f"load_npz: statement `{u(st)[:60]}` inside a try block")
+
+    def returns(self, st):
+        ret = st.value
+        if not isinstance(ret, ast.Call) or not isinstance(ret.func, ast.Name):
+            raise Refuse("load_npz: a try block does not end in `return Class(...)`")
+        cls = ret.func.id
+        if cls not in KNOWN_CLASSES:
+            raise Refuse(f"load_npz: constructs unknown class {cls}")
+        if any(k.arg is None for k in ret.keywords) or any(isinstance(a, ast.Starred) for a in ret.args):
+            raise Refuse("load_npz: * or ** in a constructor call")
+        got = {}
+        params = ctor_params(self.repo, cls) if ret.args else []
+        if ret.args and (params is None or len(ret.args) > len(params)):
+            raise Refuse(f"load_npz: positional argument to {cls} and its signature could not be read")
+        for p, a in zip(params, ret.args):
+            got[p] = a
+        for k in ret.keywords:
+            if k.arg in got:
+                raise Refuse(f"load_npz: {cls}(...) receives {k.arg} twice")
+            got[k.arg] = k.value
+        # evaluate in source order: positional arguments, then keywords
+        vals = {p: (self.value(n) if not (isinstance(n, ast.Constant) and isinstance(n.value, bool)) else n.value) for p, n in got.items()}
+
+        def frm(p, want, decoded_ok=False):
+            v = vals.get(p)
+            if not isinstance(v, Val) or v.kind != "member" or v.member != want or v.conv != CONV.get(want, []) or (v.decoded and not decoded_ok):
+                raise Refuse(f"load_npz: {cls}(...) field {want} does not receive the member of that name (converted as {CONV.get(want, [])})")
+            return v
+
+        if cls == "COO":
+            need = ["coords", "data", "shape", "fill_value"]
+            for k in need:
+                frm(k, k)
+            flags = {k: v for k, v in vals.items() if k not in need}
+            if flags != {"sorted": True, "has_duplicates": False}:
+                raise Refuse("load_npz: COO(...) is not constructed with exactly sorted=True, has_duplicates=False (the literal-load model does not apply)")
+            decoded = None
+        else:
+            if set(vals) != {"arg", "shape", "fill_value", "compressed_axes"}:
+                raise Refuse(f"load_npz: GCXS(...) arguments {sorted(vals)}")
+            t = vals["arg"]
+            if not isinstance(t, Val) or t.kind != "triple":
+                raise Refuse("load_npz: GCXS(...) first argument is not a 3-tuple")
+            for v, want in zip(t.elts, ("data", "indices", "indptr")):
+                if v.kind != "member" or v.member != want or v.conv or v.decoded:
+                    raise Refuse(f"load_npz: GCXS(...) field {want} does not receive the member of that name")
+            frm("shape", "shape")
+            frm("fill_value", "fill_value")
+            decoded = frm("compressed_axes", "compressed_axes", decoded_ok=True).decoded
+            need = ["data", "indices", "indptr", "compressed_axes", "shape", "fill_value"]
+        if set(self.order) != set(need):
+            raise Refuse(f"load_npz: {cls} branch reads {self.order}, constructor needs {sorted(need)}")
+        self.ret = (cls, decoded)
+
+
+def read_load(tree, repo):
     f = func(tree, "load_npz")
-    if [a.arg for a in f.args.args] != ["filename"]:
+    if plain_params(f, "load_npz") != ["filename"]:
         raise Refuse("load_npz: signature changed")
     body = nodoc(f.body)
     if not (len(body) == 1 and isinstance(body[0], ast.With) and len(body[0].items) == 1):
@@ -237,185 +622,377 @@ def read_load(tree):
     branches, empty_as_none = [], False
     for i, t in enumerate(tries):
         last = i == len(tries) - 1
-        if not (isinstance(t, ast.Try) and len(t.handlers) == 1 and not t.orelse and not t.finalbody and u(t.handlers[0].type) == "KeyError"):
+        if not (isinstance(t, ast.Try) and len(t.handlers) == 1 and not t.finalbody and u(t.handlers[0].type) == "KeyError"):
             raise Refuse("load_npz: statement is not `try: ... except KeyError`")
-        hb = t.handlers[0].body
+        hb = list(t.handlers[0].body)
         if last:
+            # optional temporaries holding the message (a string display), then `raise RuntimeError(...) [from e]`
+            while len(hb) > 1 and isinstance(single_target(hb[0]), ast.Name) and isinstance(hb[0].value, ast.JoinedStr | ast.Constant):
+                hb = hb[1:]
             if not (len(hb) == 1 and isinstance(hb[0], ast.Raise) and isinstance(hb[0].exc, ast.Call) and u(hb[0].exc.func) == "RuntimeError"):
                 raise Refuse("load_npz: the last handler does not raise RuntimeError")
         elif not (len(hb) == 1 and isinstance(hb[0], ast.Pass)):
             raise Refuse("load_npz: a non-final KeyError handler does something")
-        bound, order = {}, []
-        ret = None
-        for st in t.body:
-            if isinstance(st, ast.Assign) and len(st.targets) == 1 and isinstance(st.targets[0], ast.Name):
-                k, conv = fp_member(st.value, fp)
-                if conv != CONV.get(k, "asis"):
-                    raise Refuse(f"load_npz: member {k} is converted by `{conv}`")
-                if k in order:
-                    raise Refuse(f"load_npz: member {k} read twice")
-                bound[st.targets[0].id] = k
-                order.append(k)
-            elif (isinstance(st, ast.If) and not st.orelse and len(st.body) == 1 and isinstance(st.body[0], ast.Assign)
-                  and isinstance(st.test, ast.Compare) and len(st.test.ops) == 1 and isinstance(st.test.ops[0], ast.Eq)
-                  and isinstance(st.test.left, ast.Attribute) and st.test.left.attr == "size" and isinstance(st.test.left.value, ast.Name)
-                  and u(st.test.comparators[0]) == "0" and u(st.body[0].targets[0]) == st.test.left.value.id and u(st.body[0].value) == "None"
-                  and bound.get(st.test.left.value.id) == "compressed_axes"):
-                empty_as_none = True
-            elif isinstance(st, ast.Return) and st is t.body[-1]:
-                ret = st.value
-            else:
-                raise Refuse(f"load_npz: statement `{u(st)[:60]}` inside a try block")
-        if not isinstance(ret, ast.Call) or not isinstance(ret.func, ast.Name):
+        blk = Block(fp, repo)
+        # `try: reads; return C(...)`  or  `try: reads / except KeyError: … / else: return C(...)`: the second form guards the
+        # subscripts only, which is what the model (`loadFrom`: KeyError comes from `fetchAll` alone) describes in either case
+        stmts = list(t.body)
+        if t.orelse:
+            if not (len(t.orelse) == 1 and isinstance(t.orelse[0], ast.Return)) or any(isinstance(s, ast.Return) for s in stmts):
+                raise Refuse("load_npz: the else clause of a try block is not a single `return Class(...)`")
+            stmts += t.orelse
+        if not stmts or not isinstance(stmts[-1], ast.Return):
             raise Refuse("load_npz: a try block does not end in `return Class(...)`")
-        cls = ret.func.id
-        kws = {k.arg: k.value for k in ret.keywords}
-        if None in kws:
-            raise Refuse("load_npz: ** in a constructor call")
-
-        def frm(node, want):
-            if not (isinstance(node, ast.Name) and bound.get(node.id) == want):
-                raise Refuse(f"load_npz: constructor field {want} receives `{u(node)}`, not the member of that name")
-
-        if cls == "COO":
-            if ret.args:
-                raise Refuse("load_npz: positional argument to COO")
-            need = {"coords", "data", "shape", "fill_value"}
-            for k in need:
-                if k not in kws:
-                    raise Refuse(f"load_npz: COO(...) without {k}=")
-                frm(kws[k], k)
-            flags = {k: v for k, v in kws.items() if k not in need}
-            if set(flags) != {"sorted", "has_duplicates"} or u(flags["sorted"]) != "True" or u(flags["has_duplicates"]) != "False":
-                raise Refuse("load_npz: COO(...) is not constructed with exactly sorted=True, has_duplicates=False (the literal-load model does not apply)")
-        elif cls == "GCXS":
-            if not (len(ret.args) == 1 and isinstance(ret.args[0], ast.Tuple) and len(ret.args[0].elts) == 3):
-                raise Refuse("load_npz: GCXS(...) first argument is not a 3-tuple")
-            for node, want in zip(ret.args[0].elts, ("data", "indices", "indptr")):
-                frm(node, want)
-            need = {"shape", "fill_value", "compressed_axes"}
-            if set(kws) != need:
-                raise Refuse(f"load_npz: GCXS(...) keywords {sorted(kws)}")
-            for k in need:
-                frm(kws[k], k)
-            need = need | {"data", "indices", "indptr"}
-        else:
-            raise Refuse(f"load_npz: constructs unknown class {cls}")
-        if set(order) != need:
-            raise Refuse(f"load_npz: {cls} branch reads {order}, constructor needs {sorted(need)}")
-        branches.append((cls, order))
+        for st in stmts[:-1]:
+            blk.statement(st)
+        blk.returns(stmts[-1])
+        cls, decoded = blk.ret
+        if decoded:
+            empty_as_none = True
+        branches.append((cls, blk.order))
     if not branches:
         raise Refuse("load_npz: no try block")
+    gc = [b for b in branches if b[0] == "GCXS"]
+    if len(gc) > 1:
+        raise Refuse("load_npz: more than one GCXS block")
     return branches, empty_as_none, reject_leading, verify_crc
 
 
 # ---------------------------------------------------------------------------------------- pickle state
 
-def self_attrs(node):
-    if not isinstance(node, ast.Tuple):
-        raise Refuse(f"`{u(node)}` is not a tuple of self attributes")
-    res = []
-    for e in node.elts:
-        if not (isinstance(e, ast.Attribute) and isinstance(e.value, ast.Name) and e.value.id == "self"):
-            raise Refuse(f"`{u(e)}` is not a self attribute")
-        res.append(e.attr)
-    return res
+def self_attr(e):
+    return e.attr if isinstance(e, ast.Attribute) and isinstance(e.value, ast.Name) and e.value.id == "self" else None
+
+
+def bind_pairs(st):
+    """`a = x` -> [(a, x)];  `a, b = x, y` -> [(a, x), (b, y)]  (targets are Names) else None"""
+    tgt = single_target(st)
+    if isinstance(tgt, ast.Name):
+        return [(tgt.id, st.value)]
+    if (isinstance(tgt, ast.Tuple | ast.List) and isinstance(st.value, ast.Tuple | ast.List) and len(tgt.elts) == len(st.value.elts)
+            and all(isinstance(e, ast.Name) for e in tgt.elts)):
+        return [(t.id, v) for t, v in zip(tgt.elts, st.value.elts)]
+    return None
 
 
 def read_state(tree):
     g = nodoc(method(tree, "COO", "__getstate__").body)
-    if not (len(g) == 1 and isinstance(g[0], ast.Return)):
-        raise Refuse("COO.__getstate__ is not a single return")
-    get = self_attrs(g[0].value)
+    if not (g and isinstance(g[-1], ast.Return) and g[-1].value is not None):
+        raise Refuse("COO.__getstate__ does not end in a return")
+    env = {}
+
+    def gval(node):
+        """-> list of attribute names (a tuple) or one attribute name"""
+        a = self_attr(node)
+        if a is not None:
+            return a
+        if isinstance(node, ast.Name) and node.id in env:
+            return env[node.id]
+        if isinstance(node, ast.Tuple):
+            vs = [gval(e) for e in node.elts]
+            if all(isinstance(v, str) for v in vs):
+                return vs
+        raise Refuse(f"COO.__getstate__: `{u(node)}` is not a self attribute or a tuple of them")
+
+    for st in g[:-1]:
+        ps = bind_pairs(st)
+        if ps is None:
+            raise Refuse(f"COO.__getstate__: statement `{u(st)[:50]}`")
+        vals = [gval(v) for _, v in ps]  # the right-hand sides are evaluated before any name is bound
+        for (name, _), v in zip(ps, vals):
+            if name in env:
+                raise Refuse(f"COO.__getstate__: local `{name}` bound twice")
+            env[name] = v
+    get = gval(g[-1].value)
+    if not isinstance(get, list):
+        raise Refuse("COO.__getstate__ does not return a tuple")
     sm = method(tree, "COO", "__setstate__")
     s = nodoc(sm.body)
-    state = sm.args.args[1].arg
-    if not (s and isinstance(s[0], ast.Assign) and len(s[0].targets) == 1 and u(s[0].value) == state):
+    params = plain_params(sm, "COO.__setstate__")
+    if len(params) != 2:
+        raise Refuse("COO.__setstate__: signature changed")
+    state = params[1]
+    tgt = single_target(s[0]) if s else None
+    if not (isinstance(tgt, ast.Tuple | ast.List) and u(s[0].value) == state):
         raise Refuse("COO.__setstate__ does not start with the unpacking of `state`")
-    st = self_attrs(s[0].targets[0])
-    reset = []
+    # every position of the state goes to a self attribute, directly or through a local that is stored exactly once
+    slots, local_pos = [], {}
+    for i, e in enumerate(tgt.elts):
+        a = self_attr(e)
+        if a is not None:
+            slots.append(a)
+        elif isinstance(e, ast.Name) and e.id not in local_pos and e.id not in params:
+            local_pos[e.id] = i
+            slots.append(None)
+        else:
+            raise Refuse(f"COO.__setstate__: unpacking target `{u(e)}`")
+    reset, nones = [], set()
     for x in s[1:]:
-        if not (isinstance(x, ast.Assign) and len(x.targets) == 1 and isinstance(x.targets[0], ast.Attribute)
-                and u(x.targets[0].value) == "self" and u(x.value) == "None"):
+        t = single_target(x)
+        if isinstance(t, ast.Name) and is_none(x.value) and t.id not in local_pos and t.id not in nones and t.id not in params:
+            nones.add(t.id)
+            continue
+        a = self_attr(t) if t is not None else None
+        if a is None:
             raise Refuse(f"COO.__setstate__: statement `{u(x)[:50]}`")
-        reset.append(x.targets[0].attr)
-    return get, st, reset
+        if a in slots or a in reset:
+            raise Refuse(f"COO.__setstate__: attribute {a} stored twice")
+        if is_none(x.value) or isinstance(x.value, ast.Name) and x.value.id in nones:
+            reset.append(a)
+        elif isinstance(x.value, ast.Name) and x.value.id in local_pos and slots[local_pos[x.value.id]] is None:
+            slots[local_pos[x.value.id]] = a
+        else:
+            raise Refuse(f"COO.__setstate__: statement `{u(x)[:50]}`")
+    if None in slots:
+        raise Refuse("COO.__setstate__: a position of the state is not stored in an attribute")
+    if len(set(slots)) != len(slots):
+        raise Refuse("COO.__setstate__: an attribute receives two positions of the state")
+    return get, slots, sorted(reset)
 
 
 # ---------------------------------------------------------------------------------------- numba boxing
 
-def read_numba(tree):
-    # struct members
+def once(fn, name):
+    """the value of `name = value` if that is the ONLY binding of the name in the function (no parameter, no second
+    assignment, no loop / with / walrus target of that name), else None"""
+    if any(a.arg == name for a in [*fn.args.args, *fn.args.kwonlyargs, *fn.args.posonlyargs, fn.args.vararg, fn.args.kwarg] if a is not None):
+        return None
+    stores = [n for n in ast.walk(fn) if isinstance(n, ast.Name) and n.id == name and isinstance(n.ctx, ast.Store)]
+    if len(stores) != 1 or any(isinstance(n, ast.FunctionDef | ast.Lambda | ast.ClassDef) and n is not fn for n in ast.walk(fn)
+                               if isinstance(n, ast.FunctionDef | ast.Lambda | ast.ClassDef)):
+        return None
+    for n in ast.walk(fn):
+        if isinstance(n, ast.Assign) and len(n.targets) == 1 and n.targets[0] is stores[0]:
+            return n.value
+    return None
+
+
+def resolve(fn, node):
+    """a Name bound exactly once in the function -> the expression it is bound to"""
+    if isinstance(node, ast.Name):
+        v = once(fn, node.id)
+        if v is not None:
+            return v
+    return node
+
+
+def call_args(call, params, what):
+    """positional + keyword arguments of a call matched against parameter names -> {param: node}"""
+    if any(isinstance(a, ast.Starred) for a in call.args) or any(k.arg is None for k in call.keywords) or len(call.args) > len(params):
+        raise Refuse(f"{what}: `{u(call)[:60]}`")
+    got = dict(zip(params, call.args))
+    for k in call.keywords:
+        if k.arg in got or k.arg not in params:
+            raise Refuse(f"{what}: `{u(call)[:60]}`")
+        got[k.arg] = k.value
+    if set(got) != set(params):
+        raise Refuse(f"{what}: `{u(call)[:60]}`")
+    return got
+
+
+def numba_names(tree):
+    """names bound at module level to numba's type namespace / to objects in it: {local name: dotted numba name}"""
+    out = {}
+    for n in tree.body:
+        if isinstance(n, ast.Import):
+            for al in n.names:
+                if al.name == "numba" or al.name.startswith("numba."):
+                    out[al.asname or al.name.split(".")[0]] = al.name if al.asname else "numba"
+        elif isinstance(n, ast.ImportFrom) and n.level == 0 and n.module and (n.module == "numba" or n.module.startswith("numba.")):
+            for al in n.names:
+                out[al.asname or al.name] = f"{n.module}.{al.name}"
+    return out
+
+
+TYPES_NS = ("numba.core.types", "numba.types", "numba")
+
+
+def numba_dotted(node, names):
+    """`types.intp` -> 'numba.core.types.intp' etc., else None"""
+    parts = []
+    while isinstance(node, ast.Attribute):
+        parts.append(node.attr)
+        node = node.value
+    if isinstance(node, ast.Name) and node.id in names:
+        return ".".join([names[node.id], *reversed(parts)])
+    return None
+
+
+def in_types_ns(dotted, leaf):
+    return dotted is not None and any(dotted == f"{ns}.{leaf}" for ns in TYPES_NS)
+
+
+def read_numba(tree, repo):
+    names = numba_names(tree)
+    # struct members: the last argument of StructModel.__init__
     cm = method(tree, "COOModel", "__init__")
     members = None
-    for st in cm.body:
-        if isinstance(st, ast.Assign) and u(st.targets[0]) == "members" and isinstance(st.value, ast.List):
-            members = []
-            for e in st.value.elts:
-                if not (isinstance(e, ast.Tuple) and len(e.elts) == 2 and isinstance(e.elts[0], ast.Constant)
-                        and u(e.elts[1]) == f"fe_type.{e.elts[0].value}_type"):
-                    raise Refuse(f"COOModel member `{u(e)}`")
-                members.append(e.elts[0].value)
+    for n in ast.walk(cm):
+        if not isinstance(n, ast.Call):
+            continue
+        fn = u(n.func)
+        if fn == "models.StructModel.__init__":
+            got = call_args(n, ["self", "dmm", "fe_type", "members"], "COOModel.__init__")
+        elif fn == "super().__init__":
+            got = call_args(n, ["dmm", "fe_type", "members"], "COOModel.__init__")
+        else:
+            continue
+        if members is not None:
+            raise Refuse("COOModel.__init__ initialises the struct model twice")
+        fe = plain_params(cm, "COOModel.__init__")
+        if len(fe) != 3 or u(got["dmm"]) != fe[1] or u(got["fe_type"]) != fe[2] or ("self" in got and u(got["self"]) != fe[0]):
+            raise Refuse("COOModel.__init__: arguments of StructModel.__init__")
+        lst = resolve(cm, got["members"])
+        if not isinstance(lst, ast.List | ast.Tuple):
+            raise Refuse(f"COOModel members `{u(lst)[:60]}` is not a list display")
+        members = []
+        for e in lst.elts:
+            if not (isinstance(e, ast.Tuple) and len(e.elts) == 2 and isinstance(e.elts[0], ast.Constant)
+                    and u(e.elts[1]) == f"{fe[2]}.{e.elts[0].value}_type"):
+                raise Refuse(f"COOModel member `{u(e)}`")
+            members.append(e.elts[0].value)
     if members is None:
         raise Refuse("COOModel.members not found")
     # shape_type
-    sp = nodoc(method(tree, "COOType", "shape_type").body)
-    if not (sp and isinstance(sp[-1], ast.Return) and isinstance(sp[-1].value, ast.Call) and u(sp[-1].value.func) == "types.UniTuple"
-            and len(sp[-1].value.args) == 2 and u(sp[-1].value.args[1]) == "self.ndim"):
+    spf = method(tree, "COOType", "shape_type")
+    sp = nodoc(spf.body)
+    if not (sp and isinstance(sp[-1], ast.Return) and isinstance(sp[-1].value, ast.Call)):
         raise Refuse("COOType.shape_type is not `types.UniTuple(<dtype>, self.ndim)`")
-    dt = sp[-1].value.args[0]
-    loc = {}
     for st in sp[:-1]:
-        if not (isinstance(st, ast.Assign) and len(st.targets) == 1 and isinstance(st.targets[0], ast.Name)):
+        if not isinstance(single_target(st), ast.Name):
             raise Refuse("COOType.shape_type: statement")
-        loc[st.targets[0].id] = st.value
-    if isinstance(dt, ast.Name) and dt.id in loc:
-        dt = loc[dt.id]
-    if isinstance(dt, ast.Call) and u(dt.func).endswith("from_dtype") and len(dt.args) == 1 and u(dt.args[0]) == "self.coords_dtype":
+    call = sp[-1].value
+    if not in_types_ns(numba_dotted(call.func, names), "UniTuple"):
+        raise Refuse("COOType.shape_type is not `types.UniTuple(<dtype>, self.ndim)`")
+    got = call_args(call, ["dtype", "count"], "COOType.shape_type")
+    if u(resolve(spf, got["count"])) != "self.ndim":
+        raise Refuse("COOType.shape_type is not `types.UniTuple(<dtype>, self.ndim)`")
+    dt = resolve(spf, got["dtype"])
+    dd = numba_dotted(dt, names)
+    if (isinstance(dt, ast.Call) and (numba_dotted(dt.func, names) or "").endswith("from_dtype") and len(dt.args) == 1 and not dt.keywords
+            and u(dt.args[0]) == "self.coords_dtype"):
         shape_dtype = "coords"
-    elif u(dt) in ("types.intp", "numba.intp", "types.int64", "numba.int64"):
+    elif in_types_ns(dd, "intp") or in_types_ns(dd, "int64"):
         shape_dtype = "intp"
     else:
         raise Refuse(f"COOType.shape_type: element type `{u(dt)}`")
-    # unboxing: V = _unbox_native_field(typ.F_type, obj, "attr", c) ; coo.F = V.value
+    # unboxing: V = _unbox_native_field(typ.F_type, obj, "attr", c) ; P = create_struct_proxy(typ)(…) ; P.F = V.value
     ub = func(tree, "unbox_COO")
-    src, unbox = {}, []
+    up = plain_params(ub, "unbox_COO")
+    if len(up) != 3:
+        raise Refuse("unbox_COO: signature changed")
+    typ, obj, ctx = up
+    src = {}
+    hp = plain_params(func(tree, "_unbox_native_field"), "_unbox_native_field")
+    if len(hp) != 4 or len(set(hp)) != 4:
+        raise Refuse("_unbox_native_field: signature changed")
     for n in ast.walk(ub):
-        if (isinstance(n, ast.Assign) and isinstance(n.value, ast.Call) and u(n.value.func) == "_unbox_native_field"
-                and len(n.value.args) == 4 and isinstance(n.value.args[2], ast.Constant)):
-            attr = n.value.args[2].value
-            if u(n.value.args[0]) != f"typ.{attr}_type":
-                raise Refuse(f"unbox_COO: attribute {attr} unboxed as `{u(n.value.args[0])}`")
-            src[u(n.targets[0])] = attr
+        if isinstance(n, ast.Assign) and isinstance(n.value, ast.Call) and u(n.value.func) == "_unbox_native_field":
+            got = call_args(n.value, hp, "unbox_COO")
+            got = {role: got[p] for role, p in zip(("typ", "obj", "field_name", "c"), hp)}
+            fld = got["field_name"]
+            tgt = single_target(n)
+            if not (isinstance(fld, ast.Constant) and isinstance(fld.value, str) and isinstance(tgt, ast.Name)):
+                raise Refuse(f"unbox_COO: `{u(n)[:60]}`")
+            if u(got["typ"]) != f"{typ}.{fld.value}_type" or u(got["obj"]) != obj or u(got["c"]) != ctx:
+                raise Refuse(f"unbox_COO: attribute {fld.value} unboxed as `{u(got['typ'])}`")
+            if tgt.id in src or once(ub, tgt.id) is None:
+                raise Refuse(f"unbox_COO: local `{tgt.id}` bound twice")
+            src[tgt.id] = fld.value
+    proxies = [t.id for n in ast.walk(ub) if isinstance(n, ast.Assign) and isinstance(n.value, ast.Call) and isinstance(n.value.func, ast.Call)
+               and u(n.value.func) == f"cgutils.create_struct_proxy({typ})" for t in n.targets if isinstance(t, ast.Name)]
+    if len(proxies) != 1 or once(ub, proxies[0]) is None:
+        raise Refuse("unbox_COO: the struct proxy was not recognised")
+    proxy = proxies[0]
+    # temporaries `t = V.value` / `a, b = V.value, W.value`
+    vals = {}
     for n in ast.walk(ub):
-        if (isinstance(n, ast.Assign) and isinstance(n.targets[0], ast.Attribute) and u(n.targets[0].value) == "coo"):
+        if isinstance(n, ast.Assign):
+            ps = bind_pairs(n)
+            for name, v in ps or []:
+                if isinstance(v, ast.Attribute) and v.attr == "value" and isinstance(v.value, ast.Name) and v.value.id in src:
+                    if name in vals or name in src or name == proxy:
+                        raise Refuse(f"unbox_COO: local `{name}` bound twice")
+                    vals[name] = src[v.value.id]
+    for name in vals:
+        cnt = sum(1 for n in ast.walk(ub) if isinstance(n, ast.Name) and n.id == name and isinstance(n.ctx, ast.Store))
+        if cnt != 1:
+            raise Refuse(f"unbox_COO: local `{name}` bound twice")
+    unbox = {}
+    for n in ast.walk(ub):
+        if isinstance(n, ast.Assign) and any(isinstance(t, ast.Attribute) and u(t.value) == proxy for t in n.targets):
+            t = single_target(n)
             v = n.value
-            if not (isinstance(v, ast.Attribute) and v.attr == "value" and u(v.value) in src):
+            if t is None:
                 raise Refuse(f"unbox_COO: `{u(n)}`")
-            unbox.append((n.targets[0].attr, src[u(v.value)]))
-    if sorted(f for f, _ in unbox) != sorted(members):
-        raise Refuse(f"unbox_COO fills {sorted(f for f, _ in unbox)}, struct has {sorted(members)}")
-    # boxing: X_obj = c.box(typ.F_type, coo.F); args = tuple_pack([...]); kwargs = dict_pack([("k", obj)]); call(class_obj, args, kwargs)
+            if isinstance(v, ast.Attribute) and v.attr == "value" and isinstance(v.value, ast.Name) and v.value.id in src:
+                a = src[v.value.id]
+            elif isinstance(v, ast.Name) and v.id in vals:
+                a = vals[v.id]
+            else:
+                raise Refuse(f"unbox_COO: `{u(n)}`")
+            if t.attr in unbox:
+                raise Refuse(f"unbox_COO: member {t.attr} stored twice")
+            unbox[t.attr] = a
+    if sorted(unbox) != sorted(members):
+        raise Refuse(f"unbox_COO fills {sorted(unbox)}, struct has {sorted(members)}")
+    # boxing: X = c.box(typ.F_type, P.F); args = tuple_pack([...]); kwargs = dict_pack([("k", X)]); call(class_obj, args, kwargs)
     bx = func(tree, "box_COO")
-    objs, args, kwargs, called = {}, None, None, False
+    bp = plain_params(bx, "box_COO")
+    if len(bp) != 3:
+        raise Refuse("box_COO: signature changed")
+    typ, val, ctx = bp
+    proxies = [t.id for n in ast.walk(bx) if isinstance(n, ast.Assign) and isinstance(n.value, ast.Call) and isinstance(n.value.func, ast.Call)
+               and u(n.value.func) == f"cgutils.create_struct_proxy({typ})" and any(k.arg == "value" and u(k.value) == val for k in n.value.keywords)
+               for t in n.targets if isinstance(t, ast.Name)]
+    if len(proxies) != 1 or once(bx, proxies[0]) is None:
+        raise Refuse("box_COO: the struct proxy was not recognised")
+    proxy = proxies[0]
+    objs, args, kwargs, called = {}, None, None, 0
+    args_var = kwargs_var = cls_var = None
     for n in ast.walk(bx):
         if isinstance(n, ast.Assign) and isinstance(n.value, ast.Call):
             fn = u(n.value.func)
-            if fn == "c.box" and len(n.value.args) == 2:
-                v = n.value.args[1]
-                if not (isinstance(v, ast.Attribute) and u(v.value) == "coo" and u(n.value.args[0]) == f"typ.{v.attr}_type"):
+            tgt = single_target(n)
+            if fn == f"{ctx}.box":
+                got = call_args(n.value, ["typ", "val"], "box_COO")
+                v = got["val"]
+                if not (isinstance(v, ast.Attribute) and u(v.value) == proxy and u(got["typ"]) == f"{typ}.{v.attr}_type" and isinstance(tgt, ast.Name)
+                        and once(bx, tgt.id) is not None):
                     raise Refuse(f"box_COO: `{u(n)}`")
-                objs[u(n.targets[0])] = v.attr
-            elif fn == "c.pyapi.tuple_pack":
-                args = [objs.get(u(e)) for e in n.value.args[0].elts]
-            elif fn == "c.pyapi.dict_pack":
-                kwargs = [(e.elts[0].value, objs.get(u(e.elts[1]))) for e in n.value.args[0].elts]
-        if isinstance(n, ast.Call) and u(n.func) == "c.pyapi.call" and [u(a) for a in n.args] == ["class_obj", "args", "kwargs"]:
-            called = True
-    cls_ok = any(isinstance(n, ast.Call) and u(n.func) == "c.pyapi.serialize_object" and u(n.args[0]) == "COO" for n in ast.walk(bx))
-    if args is None or kwargs is None or None in args or any(v is None for _, v in kwargs) or not called or not cls_ok:
+                objs[tgt.id] = v.attr
+            elif fn == f"{ctx}.pyapi.tuple_pack":
+                lst = resolve(bx, n.value.args[0]) if len(n.value.args) == 1 and not n.value.keywords else None
+                if args is not None or not isinstance(lst, ast.List | ast.Tuple) or not isinstance(tgt, ast.Name) or once(bx, tgt.id) is None:
+                    raise Refuse(f"box_COO: `{u(n)[:60]}`")
+                args, args_var = [objs.get(u(e)) for e in lst.elts], tgt.id
+            elif fn == f"{ctx}.pyapi.dict_pack":
+                lst = resolve(bx, n.value.args[0]) if len(n.value.args) == 1 and not n.value.keywords else None
+                if kwargs is not None or not isinstance(lst, ast.List | ast.Tuple) or not isinstance(tgt, ast.Name) or once(bx, tgt.id) is None:
+                    raise Refuse(f"box_COO: `{u(n)[:60]}`")
+                kwargs, kwargs_var = [], tgt.id
+                for e in lst.elts:
+                    if not (isinstance(e, ast.Tuple) and len(e.elts) == 2 and isinstance(e.elts[0], ast.Constant) and isinstance(e.elts[0].value, str)):
+                        raise Refuse(f"box_COO: keyword entry `{u(e)}`")
+                    kwargs.append((e.elts[0].value, objs.get(u(e.elts[1]))))
+            elif fn == f"{ctx}.pyapi.unserialize" and u(n.value) == f"{ctx}.pyapi.unserialize({ctx}.pyapi.serialize_object(COO))":
+                if cls_var is not None or not isinstance(tgt, ast.Name) or once(bx, tgt.id) is None:
+                    raise Refuse("box_COO: the class object is bound twice")
+                cls_var = tgt.id
+    for n in ast.walk(bx):
+        if isinstance(n, ast.Call) and u(n.func) == f"{ctx}.pyapi.call":
+            called += 1
+            if [u(a) for a in n.args] != [cls_var, args_var, kwargs_var] or n.keywords:
+                raise Refuse("box_COO: the call `COO(*args, **kwargs)` was not recognised")
+    if args is None or kwargs is None or None in args or any(v is None for _, v in kwargs) or called != 1 or cls_var is None:
         raise Refuse("box_COO: the call `COO(*args, **kwargs)` was not recognised")
-    return members, shape_dtype, unbox, args, kwargs
+    kws = [k for k, _ in kwargs]
+    if len(set(kws)) != len(kws):
+        raise Refuse("box_COO: a keyword is passed twice")
+    params = ctor_params(repo, "COO")
+    if params is None or len(args) > len(params) or set(kws) & set(params[:len(args)]) or not set(kws) <= set(params):
+        raise Refuse("box_COO: the arguments do not fit the signature of COO.__init__ (a parameter bound twice, or unknown)")
+    return members, shape_dtype, sorted(unbox.items()), args, sorted(kwargs)
 
 
 # ---------------------------------------------------------------------------------------- emit
@@ -435,10 +1012,10 @@ def pairs(ps):
 def generate(repo: Path):
     try:
         io_tree = ast.parse((repo / IO).read_text())
-        common, write, none_as_empty = read_save(io_tree)
-        require, empty_as_none, reject_leading, verify_crc = read_load(io_tree)
+        common, write, none_as_empty = read_save(io_tree, repo)
+        require, empty_as_none, reject_leading, verify_crc = read_load(io_tree, repo)
         get, st, reset = read_state(ast.parse((repo / CORE).read_text()))
-        members, shape_dtype, unbox, bargs, bkwargs = read_numba(ast.parse((repo / NUMBA).read_text()))
+        members, shape_dtype, unbox, bargs, bkwargs = read_numba(ast.parse((repo / NUMBA).read_text()), repo)
     except (Refuse, OSError, SyntaxError, AttributeError, IndexError) as e:
         msg = str(e) or type(e).__name__
         return {OUT: (f"/- GENERATED by tools/tables.d/C14.py — REFUSED: {msg} -/\n", [], [f"{n}: {msg}" for n in ("npzWrite", "npzRequire")])}
@@ -447,11 +1024,11 @@ def generate(repo: Path):
 import SparseV.Model.Basic
 namespace SparseV.Gen
 
-/-- `save_npz`: members written for every matrix, as (member, attribute of the matrix) -/
+/-- `save_npz`: members written for every matrix, as (member, attribute of the matrix), sorted by member (a mapping) -/
 def npzCommon : List (String × String) := {pairs(common)}
 
 /-- `save_npz`: the type dispatch in order: (class, `true` = `type(matrix) is C` / `false` = `isinstance(matrix, C)`,
-members the branch adds as (member, attribute)); a matrix matching no branch gets the common members only -/
+members the branch adds as (member, attribute), sorted by member); a matrix matching no branch gets the common members only -/
 def npzWrite : List (String × Bool × List (String × String)) :=
   {lst(f"({s(c)}, {b(e)}, {pairs(ms)})" for c, e, ms in write)}
 
@@ -478,18 +1055,18 @@ def npzVerifyCrc : Bool := {b(verify_crc)}
 def cooGetState : List String := {lst(map(s, get))}
 /-- `COO.__setstate__`: the attributes the state tuple is unpacked into, in order -/
 def cooSetState : List String := {lst(map(s, st))}
-/-- `COO.__setstate__`: attributes reset to `None` afterwards -/
+/-- `COO.__setstate__`: attributes reset to `None` afterwards (sorted) -/
 def cooSetStateReset : List String := {lst(map(s, reset))}
 
 /-- numba `COOModel`: struct members in order -/
 def cooStruct : List String := {lst(map(s, members))}
 /-- numba `COOType.shape_type`: element type of the native shape tuple: "coords" (the coords dtype) or "intp" -/
 def cooShapeDtype : String := {s(shape_dtype)}
-/-- `unbox_COO`: (struct member, Python attribute it is read from) -/
+/-- `unbox_COO`: (struct member, Python attribute it is read from), sorted by member (a mapping) -/
 def cooUnbox : List (String × String) := {pairs(unbox)}
 /-- `box_COO`: struct members passed positionally to `COO(...)` -/
 def cooBoxArgs : List String := {lst(map(s, bargs))}
-/-- `box_COO`: (keyword, struct member) passed to `COO(...)` -/
+/-- `box_COO`: (keyword, struct member) passed to `COO(...)`, sorted by keyword (a mapping) -/
 def cooBoxKwargs : List (String × String) := {pairs(bkwargs)}
 
 end SparseV.Gen
